@@ -63,7 +63,30 @@ def _shard(args):
                 for kind, what in I.access_diffs(o, c):
                     vb.add(f"C03/{kind}/{sig_tag(o, d)}",
                            f"{d.hex()} '{o.text}' BP/PX/PY={st[0]} I={st[1]['I']}: {what}", c.witness)
+            # counted transfers with more than 256 elements: the external side, the count and the pointers stay documented
+            if mn in ("MVL", "MVLD"):
+                for big in LARGE_I:
+                    c, o = large_case(d, sts[0], mn, big)
+                    n += 1
+                    if o.skip:
+                        skipped += 1
+                        continue
+                    judged += 1
+                    acc, _val = I.large_count_diffs(o, c)
+                    for kind, what in acc:
+                        w = c.witness()
+                        w["large_count"] = True
+                        vb.add(f"C03/{kind}/{sig_tag(o, d)}", f"{d.hex()} '{o.text}' BP/PX/PY={sts[0][0]}: {what}", w)
     return {"n": n, "judged": judged, "skipped": skipped, "vb": vb}
+
+
+LARGE_I = (0x100, 0x101, 0x203)
+
+
+def large_case(d: bytes, state, mn: str, big: int):
+    c = make_case(d, state, mn)
+    c.regs["I"] = big
+    return c, I.run_case(c, large_count=True)
 
 
 def run(ctx) -> None:
@@ -84,7 +107,8 @@ def run(ctx) -> None:
                  "((BP,PX,PY) in {(10,23,45),(F0,20,31),(0,0,0)}, distinct pointer registers, I in 1..3, hash-filled memory); the "
                  "rendered tokens are parsed and interpreted by the documented addressing rules; the Python core executes the lifted "
                  "IL over a recording memory; judged = cases whose documented meaning is defined (others are counted as skipped, e.g. "
-                 "multi-byte internal accesses crossing 0xFF or invalid BCD). distinct_nontrivial = judged (encoding,state) cases."),
+                 "multi-byte internal accesses crossing 0xFF or invalid BCD); MVL/MVLD additionally with I in {0x100, 0x101, 0x203}, where the "
+                 "external side of the transfer is judged. distinct_nontrivial = judged (encoding,state) cases."),
         "samples": [{"bytes": "30c81020", "text": "MV (10), (BP+20)", "state": {"BP": 0x10, "PX": 0x23, "PY": 0x45}}],
     })
     ctx.assumptions += ["fetch reads are separated from data reads by address (code lives at 0x1000..0x1020, no operand points there)",
@@ -93,6 +117,12 @@ def run(ctx) -> None:
 
 def replay(ctx, w) -> Optional[str]:
     c = I.Case.from_witness(w)
+    if w.get("large_count"):
+        o = I.run_case(c, large_count=True)
+        if o.skip:
+            return None
+        acc, _ = I.large_count_diffs(o, c)
+        return f"'{o.text}': {acc[0][1]}" if acc else None
     o = I.run_case(c)
     if o.skip:
         return None
